@@ -8,6 +8,7 @@ import (
 	"errors"
 	"fmt"
 	"math"
+	"net"
 	"os"
 	"os/exec"
 	"path/filepath"
@@ -22,6 +23,7 @@ import (
 	"github.com/kercylan98/vivid/internal/cluster"
 	"github.com/kercylan98/vivid/internal/mailbox"
 	"github.com/kercylan98/vivid/internal/messages"
+	"github.com/kercylan98/vivid/internal/remoting"
 	"github.com/kercylan98/vivid/internal/remoting/serialize"
 	"github.com/kercylan98/vivid/verifharness/core"
 	"github.com/kercylan98/vivid/verifharness/tlc"
@@ -33,7 +35,7 @@ func init() {
 	subcommands["codec-child"] = codecChild
 }
 
-var codecDefaults = map[string]any{"e": "", "c": "", "v": 0, "n": 0, "m": 0, "k": 0, "s": ""}
+var codecDefaults = map[string]any{"e": "", "c": "", "v": 0, "n": 0, "m": 0, "k": 0, "s": "", "a": 1}
 
 type wireCases struct {
 	RT []struct {
@@ -446,6 +448,12 @@ type msgCaseResult struct {
 
 // msgRoundTrip builds a value of the registered message type, sends it through the real envelope codec and compares.
 func msgRoundTrip(reg messages.VerifRegistered, variant string, field int) msgCaseResult {
+	return msgRoundTripAfter(reg, variant, field, false)
+}
+
+// msgRoundTripAfter is msgRoundTrip; with afterBad the decoder is first given a truncated copy of the same encoding
+// (which it must refuse) so that state kept between decodes (pooled readers) is exercised.
+func msgRoundTripAfter(reg messages.VerifRegistered, variant string, field int, afterBad bool) msgCaseResult {
 	res := msgCaseResult{name: reg.Name}
 	p := reflect.New(reg.Type)
 	f := &fillCtx{variant: variant, field: field}
@@ -491,6 +499,13 @@ func msgRoundTrip(reg messages.VerifRegistered, variant string, field int) msgCa
 		return res
 	}
 	res.encoded = data
+	if afterBad {
+		for _, cut := range []int{len(data) / 2, len(data) - 1, 3} {
+			if cut > 0 && cut < len(data) {
+				_, _, _, _, _, _, _ = serialize.DecodeEnvelopWithRemoting(nil, data[:cut])
+			}
+		}
+	}
 	system, sa, sp, ra, rp, inst, err := serialize.DecodeEnvelopWithRemoting(nil, data)
 	if err != nil {
 		return res
@@ -585,6 +600,12 @@ func checkC12(c *core.Ctx) {
 			}
 			events = append(events, map[string]any{"e": "RT", "c": fmt.Sprintf("msg:%s/%s/%d", reg.Name, v.Name, v.Field), "v": b2i(res.equal), "n": b2i(res.consumed), "m": -1, "k": len(res.encoded)})
 			c.Add("evaluations", 1)
+			if v.Name == "all-one" || v.Name == "all-extreme" {
+				// the same round trip right after the decoder has refused truncated copies of this encoding
+				res2 := msgRoundTripAfter(reg, v.Name, v.Field, true)
+				events = append(events, map[string]any{"e": "RT", "c": fmt.Sprintf("msg-after-refused-input:%s/%s", reg.Name, v.Name), "v": b2i(res2.equal), "n": b2i(res2.consumed), "m": -1, "k": len(res2.encoded)})
+				c.Add("evaluations", 1)
+			}
 		}
 	}
 	c.Set("registered_messages", names)
@@ -661,6 +682,7 @@ type totResult struct {
 	Input   int    `json:"input"`
 	Alloc   int64  `json:"alloc"`
 	Touched int    `json:"touched"`
+	After   int    `json:"after"` // 1 = the valid base encoding decodes correctly right after the faulty one
 	Detail  string `json:"detail,omitempty"`
 }
 
@@ -747,6 +769,14 @@ func applyFault(data []byte, fault string, lenOffs []int) ([]byte, bool) {
 		pos := map[string]int{"first": 0, "mid": len(out) / 2, "last": len(out) - 1}[parts[1]]
 		out[pos] ^= 0xFF
 		return out, true
+	case "length-pad":
+		var t int
+		fmt.Sscan(parts[1], &t)
+		if t < 1 || t > len(lenOffs) {
+			return nil, false
+		}
+		binary.BigEndian.PutUint32(out[lenOffs[t-1]:], 65536)
+		return append(out, make([]byte, 70000)...), true
 	case "xorat":
 		var pos, mask int
 		fmt.Sscan(parts[1], &pos)
@@ -807,6 +837,12 @@ func baseEncoding(base string) (data []byte, lenOffs []int, mode string) {
 			return nil, nil, ""
 		}
 		return append([]byte{}, w.Bytes()...), []int{0}, "rt:" + strings.TrimPrefix(base, "rt:")
+	case base == "handshake":
+		d, err := remoting.VerifHandshakeBytes("node-1.example.org:7001")
+		if err != nil {
+			return nil, nil, ""
+		}
+		return d, []int{0}, "handshake"
 	case base == "view":
 		v := &cluster.ClusterView{ViewID: "v", Members: map[string]*cluster.NodeState{"a": {ID: "a", Address: "a:1", Generation: 1, LogicalClock: 1, Metadata: map[string]string{"k": "v"}}}, VersionVector: cluster.NewVersionVector().MustIncrement("a")}
 		w := messages.NewWriter()
@@ -830,6 +866,7 @@ type sentinelT struct {
 // runTotCase executes one totality case in this process (it may panic; the caller recovers).
 func runTotCase(tc totCase) (res totResult) {
 	res.ID = tc.ID
+	res.After = 1
 	var ms0, ms1 runtime.MemStats
 	defer func() {
 		if r := recover(); r != nil {
@@ -897,11 +934,25 @@ func runTotCase(tc totCase) (res totResult) {
 	runtime.GC()
 	runtime.ReadMemStats(&ms0)
 	var err error
+	res.After = 1
 	switch {
 	case mode == "envelope":
 		_, _, _, _, _, _, err = serialize.DecodeEnvelopWithRemoting(nil, bad)
+		if _, _, _, _, _, _, e2 := serialize.DecodeEnvelopWithRemoting(nil, data); e2 != nil {
+			res.After = 0
+		}
 	case mode == "view":
 		_, err = cluster.VerifReadClusterView(messages.NewReader(bad))
+		if _, e2 := cluster.VerifReadClusterView(messages.NewReader(data)); e2 != nil {
+			res.After = 0
+		}
+	case mode == "handshake":
+		h := &remoting.Handshake{}
+		err = h.Wait(&bytesConn{r: bytes.NewReader(bad)})
+		h2 := &remoting.Handshake{}
+		if e2 := h2.Wait(&bytesConn{r: bytes.NewReader(data)}); e2 != nil || h2.AdvertiseAddr != "node-1.example.org:7001" {
+			res.After = 0
+		}
 	default:
 		p := strings.Split(strings.TrimPrefix(mode, "rt:"), "/")
 		orig := containerValue(p[0], p[1], p[2])
@@ -921,6 +972,14 @@ func runTotCase(tc totCase) (res totResult) {
 		if err != nil && fmt.Sprintf("%#v", target.Elem().Interface()) != before {
 			res.Touched = 1
 		}
+		// the same target then receives the valid encoding
+		want := orig
+		if p[2] == "ptr" {
+			want = orig.Elem()
+		}
+		if e2 := messages.NewReader(data).Read(target.Interface()); e2 != nil || !semEqual(want, target.Elem()) {
+			res.After = 0
+		}
 	}
 	runtime.ReadMemStats(&ms1)
 	res.Alloc = int64(ms1.TotalAlloc - ms0.TotalAlloc)
@@ -931,6 +990,26 @@ func runTotCase(tc totCase) (res totResult) {
 	}
 	return res
 }
+
+// bytesConn is a net.Conn that delivers a fixed byte string and then reports EOF; like a TCP connection,
+// a read into an empty buffer returns at once.
+type bytesConn struct {
+	r *bytes.Reader
+}
+
+func (c *bytesConn) Read(p []byte) (int, error) {
+	if len(p) == 0 {
+		return 0, nil
+	}
+	return c.r.Read(p)
+}
+func (c *bytesConn) Write(p []byte) (int, error)        { return len(p), nil }
+func (c *bytesConn) Close() error                       { return nil }
+func (c *bytesConn) LocalAddr() net.Addr                { return &net.TCPAddr{} }
+func (c *bytesConn) RemoteAddr() net.Addr               { return &net.TCPAddr{} }
+func (c *bytesConn) SetDeadline(t time.Time) error      { return nil }
+func (c *bytesConn) SetReadDeadline(t time.Time) error  { return nil }
+func (c *bytesConn) SetWriteDeadline(t time.Time) error { return nil }
 
 type structWithInt struct {
 	A int
@@ -1097,7 +1176,7 @@ func checkC13(c *core.Ctx) {
 		return
 	}
 	var cases []totCase
-	bases := []string{"view", "rt:string/long/field", "rt:u16/max/slice3", "rt:bytes/one/nested", "rt:u32/one/array2", "rt:i64/min/direct", "rt:string/nonascii/slice1"}
+	bases := []string{"view", "handshake", "rt:string/long/field", "rt:u16/max/slice3", "rt:bytes/one/nested", "rt:u32/one/array2", "rt:i64/min/direct", "rt:string/nonascii/slice1"}
 	for _, reg := range messages.VerifRegisteredMessages() {
 		bases = append(bases, "msg:"+reg.Name)
 	}
@@ -1170,7 +1249,7 @@ func checkC13(c *core.Ctx) {
 			continue
 		}
 		n++
-		ev := map[string]any{"e": "Tot", "c": tc.ID, "s": r.Outcome, "k": r.Input, "m": int(r.Alloc), "v": r.Touched}
+		ev := map[string]any{"e": "Tot", "c": tc.ID, "s": r.Outcome, "k": r.Input, "m": int(r.Alloc), "v": r.Touched, "a": r.After}
 		cls := "decode-fault"
 		if tc.Group == "unsupported" {
 			cls = "encode-unsupported-" + tc.Kind
